@@ -137,15 +137,18 @@ def step (_ : Unit) (j : Json) : Except String (Unit × Drv.Out) := do
       | .ok v, "ok" =>
         let iv ← valOf typ (← fld out "val")
         if canonV v != canonV iv then o := o.diff s!"{typ} decode({text.quote}): impl={(valJ iv).compress} model={(valJ v).compress}"
-        -- decode-encode-decode
+      | .ok v, _ => o := o.diff s!"{typ} decode({text.quote}): impl={res} model=ok {(valJ v).compress}"
+      | .error e, _ => o := o.diff s!"{typ} decode({text.quote}): impl={res} model=error({e})"
+      -- decode-encode-decode, judged on the implementation's own results whatever the model says of the text
+      if res == "ok" then
         match fldD out "again" with
         | .null => o := o.mon "roundtrip" "dec-enc-dec.fail" s!"{typ}: re-encoding the decoded value of {text.quote} does not decode"
         | aj =>
-          let av ← valOf typ aj
-          if canonV av != canonV iv then
-            o := o.mon "roundtrip" "dec-enc-dec" s!"{typ}: decode-encode-decode of {text.quote} gives {(valJ av).compress}, decode gave {(valJ iv).compress}"
-      | .ok v, _ => o := o.diff s!"{typ} decode({text.quote}): impl={res} model=ok {(valJ v).compress}"
-      | .error e, _ => o := o.diff s!"{typ} decode({text.quote}): impl={res} model=error({e})"
+          match valOf typ (← fld out "val"), valOf typ aj with
+          | .ok iv, .ok av =>
+            if canonV av != canonV iv then
+              o := o.mon "roundtrip" "dec-enc-dec" s!"{typ}: decode-encode-decode of {text.quote} gives {(valJ av).compress}, decode gave {(valJ iv).compress}"
+          | _, _ => pure ()
     pure ((), o)
   | "roundtrip" =>
     let typ ← strF j "type"
